@@ -137,6 +137,7 @@ func injectCorrupt(w *World, sc Scenario, rng *rand.Rand, srv, cli *kcp.UDPSessi
 // injectGarbage (C05): while traffic flows, random byte strings and structure-aware mutations of captured datagrams
 // (bit flips, truncation, extension, field splicing) arrive from the peer's address and from unknown addresses.
 func injectGarbage(w *World, sc Scenario, rng *rand.Rand, getSrv func() *kcp.UDPSession, cli *kcp.UDPSession) {
+	settledWnd := map[string]bool{}
 	for i := 0; i < sc.Garbage; i++ {
 		time.Sleep(time.Duration(1+rng.Intn(20)) * time.Millisecond)
 		w.Mon.mu.Lock()
@@ -190,8 +191,8 @@ func injectGarbage(w *World, sc Scenario, rng *rand.Rand, getSrv func() *kcp.UDP
 					sets = len(f.Sets)
 				}
 				_, _, outstanding, _ := kcp.VerifPoolReport()
-				w.Ev(map[string]any{"ev": "bounds", "conn": "srv", "rcvq": len(st.RcvQueue), "rcvb": len(st.RcvBuf), "rcvwnd": int(st.RcvWnd),
-					"sndb": len(st.SndBuf), "sndwnd": int(st.SndWnd), "sets": sets, "pool": outstanding})
+				w.Ev(map[string]any{"ev": "bounds", "conn": "srv", "rcvq": len(st.RcvQueue), "rcvb": len(st.RcvBuf), "rcvwnd": effRcvWnd(&settledWnd, "srv", st),
+					"sndb": len(st.SndBuf), "sndwnd": int(st.SndWnd), "sets": sets, "pool": outstanding, "rto": int(st.RxRto), "minrto": int(st.RxMinrto)})
 			}
 		}
 	}
